@@ -7,7 +7,7 @@ from contextlib import contextmanager
 from threading import Thread
 
 from ._colorizer import Colorizer
-from ._locks_machinery import create_handler_lock
+from ._locks_machinery import create_handler_lock, create_queue_lock
 
 
 def prepare_colored_format(format_, ansi_level):
@@ -97,7 +97,7 @@ class Handler:
                 self._queue = self._multiprocessing_context.SimpleQueue()
                 self._confirmation_event = self._multiprocessing_context.Event()
                 self._confirmation_lock = self._multiprocessing_context.Lock()
-            self._queue_lock = create_handler_lock()
+            self._queue_lock = create_queue_lock()
             self._owner_process_pid = os.getpid()
             self._thread = Thread(
                 target=self._queued_writer, daemon=True, name="loguru-writer-%d" % self._id
@@ -333,7 +333,7 @@ class Handler:
         self._lock = create_handler_lock()
         self._lock_acquired = threading.local()
         if self._enqueue:
-            self._queue_lock = create_handler_lock()
+            self._queue_lock = create_queue_lock()
         if self._is_formatter_dynamic:
             if self._colorize:
                 self._memoize_dynamic_format = memoize(prepare_colored_format)
